@@ -3,3 +3,7 @@ import Properties.C05
 #print axioms Hive.C05.gained_equals_dispensed
 #print axioms Hive.C05.invalid_plug_transfers_nothing
 #print axioms Hive.C05.pickup_credits_fare
+#print axioms Hive.C05.run_vehicle
+#print axioms Hive.C05.run_station
+#print axioms Hive.C05.fleet_totals
+#print axioms Hive.C05.concrete_gain
